@@ -107,7 +107,10 @@ func IterateImportedDecls(imprt *ImportStmt, fun func(name string, decl Declarat
 			sort.Slice(decls, func(i, j int) bool {
 				start := decls[i].GetRange().Start
 				startj := decls[j].GetRange().Start
-				return start.Line < startj.Line || start.Column < startj.Column
+				if start.Line != startj.Line {
+					return start.Line < startj.Line
+				}
+				return start.Column < startj.Column
 			})
 
 			for _, decl := range decls {
